@@ -189,4 +189,55 @@ theorem C07_statement_false : ¬ C07_statement := by
 example : LayoutOK [⟨0, .header .ifH, true, 1⟩, ⟨4, .comment, false, 0⟩, ⟨4, .simple, true, 2⟩, ⟨0, .header .elseH, false, 3⟩, ⟨4, .simple, false, 4⟩] = true := by
   decide
 
+/-! ### `_collect_block`: the collector over classified lines is the raw-line collector (W21) -/
+
+/-- The collector of the model (`collectBlock`, over classified `Line`s, on which `nested`, `topLevel`, `blocks_eq_py_partial` … rest) is
+    the raw-line collector `collectBlockRaw` — the definition the TRANSLATED `_collect_block` is proved equal to (`GenOb.gen_collectBlock`) —
+    read through ANY assignment `txt` of a physical text to each classified line that respects the two attributes the function looks
+    at: the line is classified blank exactly when its text is made of blanks (`not line.strip()`), and its indentation is
+    `_indent_of` of its text. -/
+theorem collectBlock_is_raw (txt : Line → List Char) (base : Nat) (ls : List Line)
+    (h : ∀ l ∈ ls, (l.kind = .blank ↔ isBlankLine (txt l) = true) ∧ l.indent = indentOf (txt l)) :
+    collectBlockRaw base (ls.map txt) = (((collectBlock base ls).1).map txt, ((collectBlock base ls).2).map txt) := by
+  induction ls with
+  | nil => simp [collectBlockRaw, collectBlock]
+  | cons l rest ih =>
+    have hl := h l (by simp)
+    have ih' := ih (fun x hx => h x (by simp [hx]))
+    by_cases hb : l.kind = .blank
+    · have hb' := hl.1.1 hb
+      simp [collectBlockRaw, collectBlock, hb, hb', ih']
+    · have hb' : isBlankLine (txt l) = false := by
+        cases hq : isBlankLine (txt l)
+        · rfl
+        · exact absurd (hl.1.2 hq) hb
+      by_cases hi : l.indent ≤ base
+      · have hi' : indentOf (txt l) ≤ base := hl.2 ▸ hi
+        simp [collectBlockRaw, collectBlock, hb, hb', hi, hi']
+      · have hi' : ¬ indentOf (txt l) ≤ base := hl.2 ▸ hi
+        simp [collectBlockRaw, collectBlock, hb, hb', hi, hi', ih']
+
+/-- the raw-line collector only splits: block ++ rest is the input -/
+theorem collectBlockRaw_append (base : Nat) (ls : List (List Char)) :
+    (collectBlockRaw base ls).1 ++ (collectBlockRaw base ls).2 = ls := by
+  induction ls with
+  | nil => simp [collectBlockRaw]
+  | cons l rest ih =>
+    simp only [collectBlockRaw]
+    split
+    · simpa using ih
+    · split
+      · simp
+      · simpa using ih
+
+/-- the index `_collect_block(lines, start)` returns is where the rest begins: `lines[i:]` is the model's `rest` -/
+theorem collectBlockAt_rest (lines : List (List Char)) (start : Nat) :
+    lines.drop (collectBlockAt lines start).2
+      = (collectBlockRaw (indentOf (lines.getD start [])) (lines.drop (start + 1))).2 := by
+  have h := collectBlockRaw_append (indentOf (lines.getD start [])) (lines.drop (start + 1))
+  simp only [collectBlockAt]
+  generalize collectBlockRaw (indentOf (lines.getD start [])) (lines.drop (start + 1)) = r at h ⊢
+  rw [← List.drop_drop, ← h]
+  simp
+
 end Reduino.Props.C07
